@@ -97,6 +97,16 @@ Definition kids_of (a : arena) (p : nid) : list nid :=
   | Some n => match walk_b next (S (length (nodes a))) a (first n) with Some l => l | None => [] end
   | None => []
   end.
+(* the same children list read from the other end: last_child, then previous siblings *)
+Definition kids_rev_of (a : arena) (p : nid) : list nid :=
+  match node_of a p with
+  | Some n => match walk_b prev (S (length (nodes a))) a (last n) with Some l => rev l | None => [] end
+  | None => []
+  end.
+(* both ends of every live node's children list tell the same story *)
+Definition both_views_agree (a : arena) : bool :=
+  forallb (fun xn : nid * node => same_list (kids_of a (fst xn)) (kids_rev_of a (fst xn))) (live_slots a).
+
 Definition tops_of (a : arena) : list (list nid) :=
   flat_map (fun xn : nid * node => let (x, n) := xn in
      match parent n, prev n with
@@ -179,7 +189,8 @@ Definition dom2 (a a' : arena) : list nid := map fst (slots a) ++ map fst (slots
 (* ---------- per-step checks: the observed effect of one call against the documented one ----------
    codes: 10 outcome wrong for a possible/impossible request; 11 reported reason does not apply;
    12 arena changed although the call failed; 20 forest after the call is not the documented one;
-   21 stamps/payloads changed by a structural call; 30 new id's slot held a live node;
+   21 stamps/payloads changed by a structural call; 22 forward and backward view of a children list differ;
+   30 new id's slot held a live node;
    31 another node was touched; 32 count rule broken; 33 new node has links;
    40 wrong set of nodes removed; 41 a survivor was touched *)
 Definition check_step (a : arena) (o : op) (out : outcome) (a' : arena) : list N :=
@@ -187,6 +198,7 @@ Definition check_step (a : arena) (o : op) (out : outcome) (a' : arena) : list N
   let F' := abs a' in
   let dom := dom2 a a' in
   let unchanged := if arena_eqb a a' then [] else [12%N] in
+  (if both_views_agree a' then [] else [22%N]) ++
   match o with
   | OInsert k checked x c =>
       if impossible_b a k x c then
